@@ -284,3 +284,18 @@ def name_ret(header, ret):
         j += 1
     ty = header[a:end].rstrip()
     return header[:a] + "(" + ret + ": " + ty + ")" + header[a + len(ty):], 1
+
+
+def r_ctorfn(text):
+    """R-ctorfn: an enum constructor used as a function value in `.map_err(Path::Variant)` becomes a closure."""
+    toks = tokenize(text)
+    edits = []
+    for i in range(len(toks) - 3):
+        if toks[i].text == "." and toks[i + 1].text in ("map_err", "map") and toks[i + 2].text == "(":
+            k = match_close(toks, i + 2)
+            inner = toks[i + 3:k]
+            if len(inner) >= 3 and all((t.kind == "id") if n % 2 == 0 else (t.text == "::") for n, t in enumerate(inner)) \
+                    and len(inner) % 2 == 1 and inner[-1].text[0].isupper():
+                path = "".join(t.text for t in inner)
+                edits.append((inner[0].start, inner[-1].end, "|verif_e| %s(verif_e)" % path))
+    return apply_edits(text, edits), len(edits)
